@@ -610,8 +610,10 @@ func (self *Value) updateByteLen(originLen int, address []int, isPacked bool, pa
 			length, lenOffset := protowire.ConsumeVarint(buf[tagOffset:])
 			newLength := int(length) + diffLen
 			newBytes = protowire.AppendVarint(newBytes, uint64(newLength))
-			// length == 0 means had been deleted all the data in the field
-			if newLength == 0 {
+			// a packed list that lost its last element disappears with its tag (an empty packed list is not encoded);
+			// a message that lost its last field stays present: its tag is kept and its length becomes 0
+			dropField := newLength == 0 && previousType == proto.LIST
+			if dropField {
 				newBytes = newBytes[:0]
 			}
 
@@ -629,7 +631,7 @@ func (self *Value) updateByteLen(originLen int, address []int, isPacked bool, pa
 
 			// split length
 			srcHead := rt.AddPtr(self.v, uintptr(addressPtr+tagOffset))
-			if newLength == 0 {
+			if dropField {
 				// delete tag
 				srcHead = rt.AddPtr(self.v, uintptr(addressPtr))
 				subLen -= tagOffset
